@@ -471,6 +471,9 @@ func (s *reprovider) Reprovide(ctx context.Context) error {
 	if s.throughputCallback != nil && s.throughputMinimumProvides < batchSize {
 		batchSize = s.throughputMinimumProvides
 	}
+	// A batch size of 0 (MaxBatchSize(0) or ThroughputReport(f, 0)) would never
+	// read from kch and loop forever; always make progress.
+	batchSize = max(batchSize, 1)
 
 	cids := make(map[cid.Cid]struct{}, min(batchSize, 1024))
 	allCidsProcessed := false
